@@ -460,6 +460,23 @@ def table_sweep(ver, binp, wd, kinds):
                               "encodes_checked": summ["encodes"], "mismatches": len(doc["mismatches"]), "wall_s": round(time.time() - t0, 1)})
 
 
+def run_tlapm(ver, module, wd, what):
+    """Bonus: an unbounded TLAPS proof next to a bounded model (no claim depends on it; a failure is a NOTE)."""
+    t0 = time.time()
+    shutil.copy(os.path.join(SPEC, module + ".tla"), wd)
+    try:
+        r = subprocess.run(["tlapm", "--threads", "8", module + ".tla"], cwd=wd, capture_output=True, text=True, timeout=600)
+        txt = r.stdout + r.stderr
+        m = re.search(r"All (\d+) obligations proved", txt)
+        proved = int(m.group(1)) if m else 0
+    except (subprocess.TimeoutExpired, FileNotFoundError):
+        proved, txt = 0, "tlapm unavailable or timed out"
+    if not proved:
+        ver.notes.append(f"bonus proof {module}: not all obligations proved ({txt.strip().splitlines()[-1][:200] if txt.strip() else ''})")
+    ver.cov["stages"].append({"stage": f"TLAPS {module}: {what}", "obligations_proved": proved, "wall_s": round(time.time() - t0, 1)})
+    shutil.rmtree(os.path.join(wd, ".tlacache"), ignore_errors=True)
+
+
 def run_extras(ver, binp, wd):
     """Behaviour beyond the listed properties (spec/Data.tla): recorded and validated like everything else, but a mismatch is a
     NOTE of the hosting check, never a violation of the hosted property."""
